@@ -52,23 +52,13 @@ static FILE *g_out = stdout;
 
 #include "driver_util.h"
 
-// command tables live in the included parts (one translation unit keeps the
-// build at a single compiler invocation)
-#include "cmd_c17.inc"
-#include "cmd_dict.inc"
-#include "cmd_bits.inc"
-#include "cmd_misc.inc"
+// command tables: generated include list (cxx/cmds.list), see tools/vlib.py gen_cmds_header
+#include "cmds_gen.h"
 
 static bool run_command(State &st, const std::vector<std::string> &tk) {
   if (tk.empty())
     return true;
-  if (cmd_c17(st, tk))
-    return true;
-  if (cmd_dict(st, tk))
-    return true;
-  if (cmd_bits(st, tk))
-    return true;
-  if (cmd_misc(st, tk))
+  if (run_command_gen(st, tk))
     return true;
   printf("UNKNOWN %s\n", tk[0].c_str());
   return false;
